@@ -249,12 +249,13 @@ def check_live_transition(typ, syn, kind, key, sub, sub2):
             return expand(pr, u, g)
         except Exception as e:
             return 'EXC:' + type(e).__name__
+    # the reference first, with dicts of its own: whatever the library might remember about the live dicts cannot reach it
+    fresh = ex(copy.deepcopy(user2), copy.deepcopy(glob2))
     ex(user, glob)
     user.pop('text', None) if user.get('text', 0) is None else None
     assign_in_place(user, user2)
     assign_in_place(glob, glob2)
     live = ex(user, glob)
-    fresh = ex(copy.deepcopy(user2), copy.deepcopy(glob2))
     if live != fresh:
         return [('layer-added-in-place-not-seen:%s' % kind, dict(key=key, probe=pr, before=list(sub), after=list(sub2), live=live[:120], fresh=fresh[:120]))]
     return []
